@@ -142,6 +142,8 @@ def required_cells(tier):
         "cc_cells_vs_analytic": 20, "cc:exp": 2, "cc:modes": 2,
         "cc:tri:offset": 2, "cc:straddle": 2, "cc:kink-straddle": 2,
         "scale:extreme": 3, "scale:moderate": 3, "scale_cells_compared": 50,
+        "reassign:alpha": 1, "reassign:zeta": 1, "reassign:cutoff": 1,
+        "reassign:temperature": 1, "reassign:cutoff_type": 1,
     }
     for tc in set(T_CLASSES):
         req["T:" + tc] = 2
@@ -156,6 +158,8 @@ def cases(tier, seed):
             for i in range(n_cc)]
     out += [{"kind": "scale", "seed": seed, "idx": i, "tier": tier}
             for i in range(12 if tier == "quick" else 80)]
+    out += [{"kind": "reassign", "seed": seed, "idx": i, "tier": tier}
+            for i in range(10 if tier == "quick" else 60)]
     return out
 
 
@@ -1304,9 +1308,75 @@ def run_scale(case):
                                 "worst_ratio": worst})}
 
 
+def run_reassign(case):
+    """The 2D integrals of an object must agree with its OWN correlation
+    function also after its public parameters were re-assigned: cells are
+    evaluated, a parameter is changed on the same object, and the cells must
+    then equal those of a freshly built object with the new parameters (which
+    the other case kinds tie to the correlation function)."""
+    import oqupy
+    i = case["idx"]
+    rng = gen.rng_for(case["seed"], "c12re", i)
+    attr = ["alpha", "zeta", "cutoff", "temperature", "cutoff_type"][i % 5]
+    p = dict(alpha=float(rng.uniform(0.05, 1.0)),
+             zeta=float(rng.choice([1.0, 1.5, 3.0])),
+             cutoff=float(rng.uniform(1.0, 5.0)),
+             cutoff_type=["hard", "exponential", "gaussian"][i % 3],
+             temperature=[0.0, float(rng.uniform(0.5, 3.0))][i % 2])
+    dt = float(rng.uniform(0.05, 0.2))
+    obj = oqupy.PowerLawSD(**p)
+
+    def observe(c):
+        vals = [c.correlation_2d_integral(dt, 0.0, shape="upper-triangle")]
+        vals += [c.correlation_2d_integral(dt, k * dt, shape="square")
+                 for k in (1, 2, 4)]
+        vals.append(c.correlation_2d_integral(dt, 2 * dt, 2 * dt + 1.5 * dt,
+                                              shape="rectangle"))
+        vals.append(c.correlation(0.7 * dt))
+        return np.array(vals, dtype=complex)
+    before = observe(obj)
+    p2 = dict(p)
+    if attr == "alpha":
+        p2["alpha"] = p["alpha"] * 1.9
+    elif attr == "zeta":
+        p2["zeta"] = p["zeta"] + 0.5
+    elif attr == "cutoff":
+        p2["cutoff"] = p["cutoff"] * 1.6
+    elif attr == "temperature":
+        p2["temperature"] = p["temperature"] * 2 + 0.7
+    else:
+        p2["cutoff_type"] = {"hard": "gaussian", "gaussian": "exponential",
+                             "exponential": "hard"}[p["cutoff_type"]]
+    setattr(obj, attr, p2[attr])
+    after = observe(obj)
+    fresh = observe(oqupy.PowerLawSD(**p2))
+    scale = float(np.abs(fresh).max())
+    dev = float(np.abs(after - fresh).max()) / scale
+    changed = float(np.abs(fresh - before).max()) / scale
+    violations = []
+    if dev > 1e-9:
+        k = int(np.argmax(np.abs(after - fresh)))
+        violations.append({
+            "what": f"after re-assigning {attr} the object's 2D integrals / "
+                    f"correlation no longer agree with each other: entry {k} "
+                    f"is {after[k]:.6g}, a fresh object with the same "
+                    f"parameters gives {fresh[k]:.6g} (before the change "
+                    f"{before[k]:.6g})",
+            "mechanism": "stale-after-reassign", "detail": {"attr": attr}})
+    return {"violations": violations, "cells": ["reassign:" + attr],
+            "monitors": {"reassign_values_compared": int(len(after))},
+            "nontrivial": changed > 1e-3,
+            "signature": f"reassign-{attr}-{i % 6}", "maxratio": dev / 1e-9,
+            "obs": {}, "sample": gen.nice({"kind": "reassign", "attr": attr,
+                                           "sd": p, "new": p2[attr],
+                                           "rel_dev": dev})}
+
+
 def run_case(case):
     if case["kind"] == "sd":
         return run_sd(case)
     if case["kind"] == "scale":
         return run_scale(case)
+    if case["kind"] == "reassign":
+        return run_reassign(case)
     return run_cc(case)
